@@ -9,17 +9,6 @@ Require Import Cirbo.Proofs.DictFacts Cirbo.Proofs.WFBase Cirbo.Proofs.WFSimple 
                Cirbo.Proofs.RebuildFacts Cirbo.Proofs.EffectRR Cirbo.Proofs.EffectMD.
 Require Import Coq.Sorting.Permutation.
 
-(* ---------------- generic: a fold whose invariant mentions the processed prefix ---------------- *)
-Lemma foldM_prefix_inv {A S} (f : S -> A -> res S) (I : list A -> S -> Prop) (order : list A) :
-  (forall P x rest s s', order = P ++ x :: rest -> I P s -> f s x = Ok s' -> I (P ++ [x]) s') ->
-  forall rest P s s', order = P ++ rest -> I P s -> foldM f rest s = Ok s' -> I order s'.
-Proof.
-  intros Hstep. induction rest as [|x rest IH]; intros P s s' E HI H; simpl in H.
-  - injection H as <-. rewrite app_nil_r in E. subst. exact HI.
-  - binv H s1 Hs1. apply (IH (P ++ [x]) s1 s'); [rewrite <- app_assoc; exact E| |exact H].
-    eapply Hstep; eassumption.
-Qed.
-
 (* ---------------- the stages of the pass ---------------- *)
 Definition mu_build (c : circuit) (m : mu_maps) (n : circuit) (l : label) : res circuit :=
   do g <- get_gate c l; do ops <- mapM (mu_remap c m) (gops g); emplace_gate n l (gtyp g) ops.
